@@ -623,6 +623,39 @@ func (fc *FnCtx) evalCall(x *ast.CallExpr, env *Env) Val {
 		}
 		v := arg(len(x.Args) - 1)
 		return Val{K: a.K, S: stor(a.S, idx, v.S)}
+	case "permuted":
+		// permuted(x): every element of slice x now equals (field by field) some element
+		// x held in the old state — the part of "x was permuted" that per-element
+		// predicates need
+		v := arg(0)
+		if v.K != KSlice {
+			panic(specErr("permuted: argument must be a slice"))
+		}
+		et := v.T.Underlying().(*types.Slice).Elem()
+		qi, qj := sym(fmt.Sprintf("q_pi_%d", env.depth)), sym(fmt.Sprintf("q_pj_%d", env.depth))
+		var eqs []Term
+		if su := structOf(et); su != nil {
+			for i := 0; i < su.NumFields(); i++ {
+				ft := su.Field(i).Type()
+				if isObjectType(ft) {
+					panic(specErr("permuted: nested struct fields not supported"))
+				}
+				for _, lf := range cellLeaves(ft) {
+					name := typeName(et) + "." + su.Field(i).Name() + lf.suffix
+					cur := fc.vc.region(env.cur, name, 1, leafSort(lf.kind))
+					old := fc.vc.region(env.old, name, 1, leafSort(lf.kind))
+					eqs = append(eqs, eq(app("select", cur, app("selem", v.Sl.Base, plus(v.Sl.Off, qi))), app("select", old, app("selem", v.Sl.Base, plus(v.Sl.Off, qj)))))
+				}
+			}
+		} else {
+			for _, lf := range cellLeaves(et) {
+				name := "elem<" + leafTypeName(et) + ">" + lf.suffix
+				cur := fc.vc.region(env.cur, name, 2, leafSort(lf.kind))
+				old := fc.vc.region(env.old, name, 2, leafSort(lf.kind))
+				eqs = append(eqs, eq(sel(cur, v.Sl.Base, plus(v.Sl.Off, qi)), sel(old, v.Sl.Base, plus(v.Sl.Off, qj))))
+			}
+		}
+		return boolV(fmt.Sprintf("(forall ((%s Int)) (=> (and (<= 0 %s) (< %s %s)) (exists ((%s Int)) (and (<= 0 %s) (< %s %s) %s))))", qi, qi, qi, v.Sl.Len, qj, qj, qj, v.Sl.Len, and(eqs...)))
 	case "indom":
 		// indom(m, k): key k is present in map m
 		m := arg(0)
@@ -635,6 +668,15 @@ func (fc *FnCtx) evalCall(x *ast.CallExpr, env *Env) Val {
 		return boolV(fc.specEq(arg(0), Val{K: KInt, S: "0", T: types.Typ[types.UntypedNil]}))
 	case "tagof":
 		return intV(arg(0).Tag, nil)
+	case "unbox":
+		// the value that was converted to the interface value given (known when the
+		// conversion happened in the function under verification)
+		v := arg(0)
+		b, ok := fc.eng.boxes[v.S]
+		if !ok {
+			panic(specErr("unbox: argument is not an interface built from a value in this function"))
+		}
+		return b
 	case "unboxptr", "sizeofptr":
 		// the pointer that was converted to the interface value given (known when the
 		// conversion happened in the function under verification)
